@@ -509,7 +509,7 @@ def cliSk (fails : CliEff → Bool) (ray gpusNone prepared : Bool) (trace : List
       let trace := trace ++ [.isPrepared]
       if fails .isPrepared then (trace, some .other) else
       if (!prepared) then
-        (trace, some .xyzError)
+        (trace, some .other)
       else
         let trace := trace ++ [(.growMissing true true)]
         if fails (.growMissing true true) then (trace, some .other) else
@@ -523,7 +523,7 @@ def cliSk (fails : CliEff → Bool) (ray gpusNone prepared : Bool) (trace : List
       let trace := trace ++ [.isPrepared]
       if fails .isPrepared then (trace, some .other) else
       if (!prepared) then
-        (trace, some .xyzError)
+        (trace, some .other)
       else
         let trace := trace ++ [(.growMissing true true)]
         if fails (.growMissing true true) then (trace, some .other) else
@@ -535,7 +535,7 @@ def cliSk (fails : CliEff → Bool) (ray gpusNone prepared : Bool) (trace : List
     let trace := trace ++ [.isPrepared]
     if fails .isPrepared then (trace, some .other) else
     if (!prepared) then
-      (trace, some .xyzError)
+      (trace, some .other)
     else
       let trace := trace ++ [(.growMissing true true)]
       if fails (.growMissing true true) then (trace, some .other) else
